@@ -127,3 +127,13 @@ Require Copia.Proofs.TiePlan.
 Theorem C15_model_is_translation_of_source : TiePlan.plan_model_is_translation.
 Proof. exact TiePlan.plan_model_is_translation_holds. Qed.
 Print Assumptions C15_model_is_translation_of_source.
+
+(** [bisync_run] / [bisync_dry] - the run of the theorems above - are the translation of bidir.rs `run_bisync` as the
+    source has it now: `trust_base` = a record was loaded, the plan from `reconcile` on (a, b, base, trust_base), the
+    dry-run exit before anything is touched (printing exactly the plan), the base pruned to paths present on a side,
+    `apply(..)?` per plan entry in order, the record saved only after the last apply, the exit status from the conflict
+    count (Gen/BisyncRunGen.v, Proofs/TieBisyncRun.v). *)
+Require Copia.Proofs.TieBisyncRun.
+Theorem C15_run_is_translation_of_source : TieBisyncRun.bisync_run_is_translation.
+Proof. exact TieBisyncRun.bisync_run_is_translation_holds. Qed.
+Print Assumptions C15_run_is_translation_of_source.
